@@ -87,8 +87,8 @@ def extract(r, fh):
     return n
 
 
-def go_usermanager(ctx, env, tag=None):
-    return lib.run_go(ctx, "usermanager", "TestVerifC18Replay", env=env, timeout=1500, tag=tag)
+def go_usermanager(ctx, env, tag=None, extra_args=None):
+    return lib.run_go(ctx, "usermanager", "TestVerifC18Replay", env=env, timeout=1500, tag=tag, extra_args=extra_args)
 
 
 def tmp_env():
@@ -176,8 +176,8 @@ def replay(ctx, path):
     env = {"VERIF_REPLAY": os.path.abspath(path)}
     env.update(tmp_env())
     if "record" in (rp.get("replay") or {}):
-        res = lib.run_go(ctx, "server", "TestVerifC18Connect", env=env, harness_dirs=["server"])
+        res = lib.run_go(ctx, "server", "TestVerifC18Connect", env=env, harness_dirs=["server"], extra_args=["-v"])
     else:
-        res = go_usermanager(ctx, env)
+        res = go_usermanager(ctx, env, extra_args=["-v"])
     print(open(os.path.join(res["_out_dir"], "go.out")).read())
     return 0
